@@ -111,6 +111,10 @@ class Session:
         data = p if self.mode == "reverse" else socks_udp_wrap(dst, p)
         self.s.sendto(data, self.relay)
 
+    def send_raw(self, dst, payload):
+        self.tiny_sent = getattr(self, "tiny_sent", 0) + 1
+        self.s.sendto(payload if self.mode == "reverse" else socks_udp_wrap(dst, payload), self.relay)
+
     def poll(self):
         while True:
             try:
@@ -137,6 +141,11 @@ def run_path(topo, up, mode, origins, sizes, nsess, per, sid0):
             time.sleep(0.004)
         for s in sessions:
             s.poll()
+    # payloads too small to carry a tag: 0, 1 and 2 bytes (an empty datagram is a datagram, not an end of stream)
+    for p in (b"", b"x", b"ab"):
+        for s in sessions:
+            s.send_raw(dsts[0], p)
+            time.sleep(0.004)
     end = time.time() + 2.5
     while time.time() < end:
         for s in sessions:
@@ -153,7 +162,11 @@ def judge(sessions, origins, mode, listener_addr):
             allgot.append((oi, p))
     by_sess = {}
     fabricated = 0
+    tiny_at_origin = sorted(len(p) for oi, p in allgot if len(p) <= 2 and oi == 0)
+    tiny_expected = sorted([0, 1, 2] * sum(1 for s in sessions if getattr(s, "tiny_sent", 0)))
     for oi, p in allgot:
+        if len(p) <= 2 and oi == 0:
+            continue
         t = parse_tag(p)
         if t is None:
             fabricated += 1
@@ -176,6 +189,7 @@ def judge(sessions, origins, mode, listener_addr):
                 at_origin[seq] += 1
         replies = [0] * len(s.sent)
         foreign = mislabelled = 0
+        tiny_replies = []
         for d, a in s.rx:
             if s.mode == "socks":
                 frm, p = socks_udp_unwrap(d)
@@ -183,6 +197,9 @@ def judge(sessions, origins, mode, listener_addr):
                 frm, p = ("listener", a[0], a[1]), d
             if not p.startswith(b"R:"):
                 foreign += 1
+                continue
+            if len(p) <= 4 and p[2:] in (b"", b"x", b"ab"):
+                tiny_replies.append(len(p) - 2)
                 continue
             t = parse_tag(p[2:])
             if t is None or t[0] != s.sid or not t[3] or t[1] >= len(s.sent):
@@ -198,6 +215,7 @@ def judge(sessions, origins, mode, listener_addr):
                 mislabelled += 1
         recs.append({"session": s.sid, "up": s.up, "mode": s.mode, "sent": len(s.sent), "at_origin": at_origin, "misdelivered": misdelivered, "corrupted": corrupted,
                      "replies": replies, "foreign_replies": foreign, "mislabelled": mislabelled, "fabricated_at_origin": 0,
+                     "tiny_replies": sorted(tiny_replies) or [-1], "tiny_at_origin": tiny_at_origin or [-1], "tiny_expected_at_origin": tiny_expected or [-1],
                      "sizes": [x[2] for x in s.sent][:8]})
     return recs, fabricated
 
